@@ -221,8 +221,37 @@ def _variant_to_out_spec(P, fn, adt_name):
     return m
 
 
+def _variant_to_out_concrete(P, fn, adt_name):
+    """Writer table by walking the function with each variant as its argument (see core/cinterp.py)."""
+    from ..core import cinterp as CI
+
+    pidx = next((i for i in range(1, fn.arg_count + 1) if adt_name in str(fn.locals[i].get("ty") or "")), None)
+    if pidx is None:
+        return None
+    m = {}
+    try:
+        for v in P.adts[adt_name]["variants"]:
+            args = [("adt", "Formatter", "Formatter", ())] * fn.arg_count
+            args[pidx - 1] = ("adt", adt_name, v["name"], ())
+            val, out = CI.run_fn(P, fn, args)
+            if isinstance(val, int) and not isinstance(val, bool) and not out:
+                m[v["name"]] = val
+            elif len(out) == 1:
+                m[v["name"]] = out[0] if isinstance(out[0], int) else out[0].decode()
+            else:
+                return None
+    except Exception:
+        return None
+    return m
+
+
 def _variant_to_out(P, fn, adt_name):
     m = _variant_to_out_spec(P, fn, adt_name)
+    if m and len(m) == len(P.adts[adt_name]["variants"]):
+        return m
+    mc = _variant_to_out_concrete(P, fn, adt_name)
+    if mc:
+        return mc
     if m:
         return m
     rows = switch_table(P, fn)
@@ -278,6 +307,35 @@ def _in_to_variant(P, fn, adt_name, kind, _depth=0):
             return m
         except CE.Unknown:
             pass
+    # branchy conversion (if / match / early returns / helpers): walk it with every candidate input
+    try:
+        from ..core import cinterp as CI
+        from ..core import ceval as CE
+
+        if kind == "int":
+            cands = list(range(256))
+        else:
+            cands = sorted({bytes.fromhex(x.a[1]) for f_ in P.fns.values() if not f_.from_expansion for s_ in evaluate(f_).sites.values() for a_ in s_.args for x in subterms(a_) if x.op == "const" and x.a[0] == "bytes" and len(x.a[1]) <= 80})
+            for f_ in list(P.fns.values()) + list(getattr(P, "helpers", {}).values()):
+                if adt_name in f_.key:
+                    for blk in f_.blocks:
+                        for st_ in blk["stmts"]:
+                            if st_["k"] == "assign":
+                                for x in subterms(__import__("analysis.core.sym", fromlist=["const_term"]).const_term(st_["rv"]["use"]["const"])) if isinstance(st_["rv"].get("use"), dict) and "const" in st_["rv"]["use"] else []:
+                                    if x.op == "const" and x.a[0] == "bytes":
+                                        cands.append(bytes.fromhex(x.a[1]))
+            cands = sorted(set(cands))
+        other = CE.result_variant(CI.run_fn(P, fn, [255 if kind == "int" else b"\x00<none>"])[0])
+        m = {}
+        for k_ in cands:
+            v_ = CE.result_variant(CI.run_fn(P, fn, [k_])[0])
+            if v_ != other:
+                m[k_ if kind == "int" else k_.decode("latin-1")] = v_
+        m["otherwise"] = other
+        if len(m) > 1 or other is not None:
+            return m
+    except Exception:
+        pass
     rows = switch_table(P, fn)
     m = {}
     for conds, out, b in rows:
@@ -627,8 +685,20 @@ def check_serialize_total(ctx, P, rule="E9.serialize-total"):
         inloop = set()
         for src, h in cfg.back_edges():
             inloop |= set(cfg.natural_loop(src, h))
-        cond = [b for b, _ in writes if b not in inloop and ends and not any(cfg.dominates(b, e) for e in ends)]  # enum: one `end` per variant arm
-        ctx.ob(rule, k, not skips and not cond, "%s writes %d field(s)%s%s" % (k, len(writes), "" if not skips else "; %d field(s) can be SKIPPED (skip_serializing_if): the positional compact form loses them" % len(skips), "" if not cond else "; %d field write(s) are conditional" % len(cond)), where=where(f, (skips or cond or [None])[0]))
+        # every way from the entry to an `end` performs the same number of field writes (a skipped field is a way with
+        # fewer writes; writes spread over match arms that all write their fields are not)
+        order = [n_ for n_ in cfg.rpo() if isinstance(n_, int)]
+        idx_ = {n_: i for i, n_ in enumerate(order)}
+        wblocks = {b for b, _ in writes if b not in inloop}
+        lo_, hi_ = {}, {}
+        for n_ in order:
+            ps_ = [p_ for p_, _ in cfg.pred[n_] if p_ in lo_ and idx_.get(p_, 1 << 30) < idx_[n_]]
+            base_lo = min((lo_[p_] for p_ in ps_), default=0)
+            base_hi = max((hi_[p_] for p_ in ps_), default=0)
+            w_ = 1 if n_ in wblocks else 0
+            lo_[n_], hi_[n_] = base_lo + w_, base_hi + w_
+        cond = [e for e in ends if e in lo_ and lo_[e] != hi_[e]]
+        ctx.ob(rule, k, not skips and not cond, "%s writes %d field(s)%s%s" % (k, len(writes), "" if not skips else "; %d field(s) can be SKIPPED (skip_serializing_if): the positional compact form loses them" % len(skips), "" if not cond else "; the number of field writes before `end` depends on the path (%s)" % ", ".join("%d..%d" % (lo_[e], hi_[e]) for e in cond)), where=where(f, (skips or cond or [None])[0]))
     ctx.floor(rule, "struct/tuple serializers", n, 6)
 
 
